@@ -49,3 +49,88 @@ package config
 //@ ensures [a-given-host-must-be-valid] imp(result && result_of(net.SplitHostPort, 0) != "", govalidator.IsHost(result_of(net.SplitHostPort, 0)))
 //@ ensures [valid-endpoints-are-accepted] imp(result_of(net.SplitHostPort, 2) == nil && (result_of(net.SplitHostPort, 0) == "" || govalidator.IsHost(result_of(net.SplitHostPort, 0))) && govalidator.IsPort(result_of(net.SplitHostPort, 1)), result)
 //@ at call net.SplitHostPort assert arg(a0) == value0
+
+// ---------------------------------------------------------------- custom validations (validations.go, validator.go)
+
+// min-time / max-time: the field must be a duration and the tag parameter a parsable duration; anything else fails validation.
+//@ func getTimeForValidation
+//@ props C17
+//@ modifies nothing
+//@ ensures [unparsable-parameter-fails] imp(result_of(time.ParseDuration, 1) != nil, !ok)
+//@ ensures [only-durations] iff(ok, result_of(time.ParseDuration, 1) == nil && typeis(v, time.Duration))
+//@ ensures [value-and-bound] imp(ok, actual == v.(time.Duration) && check == result_of(time.ParseDuration, 0))
+//@ at call time.ParseDuration assert arg(a0) == param0
+
+//@ func MinTimeValidation
+//@ props C17
+//@ nilsafe
+//@ requires fl != nil
+//@ ensures [at-least-the-bound] result == (result_of(getTimeForValidation, 2) && result_of(getTimeForValidation, 1) <= result_of(getTimeForValidation, 0))
+//@ at call getTimeForValidation assert [field-value-against-the-tag-parameter] arg(v) == result_of(fl.Field().Interface, 0) && arg(param) == result_of(fl.Param, 0)
+
+//@ func MaxTimeValidation
+//@ props C17
+//@ nilsafe
+//@ requires fl != nil
+//@ ensures [at-most-the-bound] result == (result_of(getTimeForValidation, 2) && result_of(getTimeForValidation, 0) <= result_of(getTimeForValidation, 1))
+//@ at call getTimeForValidation assert [field-value-against-the-tag-parameter] arg(v) == result_of(fl.Field().Interface, 0) && arg(param) == result_of(fl.Param, 0)
+
+//@ func MinSizeValidation
+//@ props C17
+//@ nilsafe
+//@ requires fl != nil
+//@ ensures [at-least-the-bound] result == (result_of(getSizeForValidation, 2) && result_of(getSizeForValidation, 1) <= result_of(getSizeForValidation, 0))
+
+//@ func MaxSizeValidation
+//@ props C17
+//@ nilsafe
+//@ requires fl != nil
+//@ ensures [at-most-the-bound] result == (result_of(getSizeForValidation, 2) && result_of(getSizeForValidation, 0) <= result_of(getSizeForValidation, 1))
+
+// A string validation applied to a field that is not a string fails.
+//@ func StringToAbstractValidation#lit0
+//@ props C17
+//@ nilsafe
+//@ requires fl != nil && sv != nil
+//@ ensures [non-strings-fail] imp(!typeis(result_of(fl.Field().Interface, 0), string), !result && calls(sv) == 0)
+//@ ensures [strings-are-judged-by-the-validation] imp(typeis(result_of(fl.Field().Interface, 0), string), calls(sv) == 1 && result == result_of(sv, 0))
+//@ at call sv assert [the-field-value] arg(a0) == result_of(fl.Field().Interface, 0).(string)
+
+//@ func Validate
+//@ props C17
+//@ at call defaultValidator.Struct assert [the-given-value] arg(a0) == value0
+//@ ensures [validation-failure-is-an-error] iff(result != nil, result_of(defaultValidator.Struct, 0) != nil)
+
+// The validator knows the custom tags used by the config structs.
+//@ func newValidator
+//@ props C17
+//@ at call validate.SetTagName assert [validate-tag] arg(a0) == "validate"
+//@ loop 0 step [every-duration-and-size-validation-registered] calls(validate.RegisterValidation) == iter(calls(validate.RegisterValidation)) + 1
+//@ loop 1 step [every-string-validation-registered] calls(validate.RegisterValidation) == iter(calls(validate.RegisterValidation)) + 1
+//@ ensures result == result_of(validator.New, 0)
+
+// ---------------------------------------------------------------- conversion hooks (hooks.go): other types pass through untouched
+
+//@ func StringToIPHook
+//@ props C17
+//@ nilsafe
+//@ requires f != nil
+//@ env [mapstructure-passes-the-type-of-the-data] imp(f.Kind() == reflect.String, typeis(data, string))
+//@ ensures [other-values-pass-through] imp(f.Kind() != reflect.String, result0 == data && result1 == nil)
+//@ ensures [bad-ip-is-an-error] imp(calls(net.ParseIP) == 1 && len(result_of(net.ParseIP, 0)) == 0 && result_of(net.ParseIP, 0) == nil, result1 != nil)
+
+//@ func StringToURLHook
+//@ props C17
+//@ nilsafe
+//@ requires f != nil
+//@ env [mapstructure-passes-the-type-of-the-data] imp(f.Kind() == reflect.String, typeis(data, string))
+//@ ensures [other-values-pass-through] imp(f.Kind() != reflect.String, result0 == data && result1 == nil)
+//@ ensures [bad-url-is-an-error] imp(calls(govalidator.IsURL) == 1 && !result_of(govalidator.IsURL, 0), result1 != nil && cause(result1) == InvalidURLError)
+
+//@ func StringToDataSizeHook
+//@ props C17
+//@ nilsafe
+//@ requires f != nil
+//@ env [mapstructure-passes-the-type-of-the-data] imp(f.Kind() == reflect.String, typeis(data, string))
+//@ ensures [other-values-pass-through] imp(f.Kind() != reflect.String, result0 == data && result1 == nil)
+//@ ensures [bad-size-is-an-error] imp(calls(size.UnmarshalText) == 1, result1 == result_of(size.UnmarshalText, 0))
